@@ -1092,7 +1092,7 @@ fn run_c12(args: &Args, out: &mut Out) {
         hist_case(out, args, ops, &probe, "directed", true);
         set_case(out, args, s, "directed-final-set", true);
     }
-    let n_model = args.scale(30, 300);
+    let n_model = args.scale(24, 300);
     for i in 0..n_model {
         let (pool, name) = key_pool(&mut rng, styles_for(i));
         let deep = matches!(styles_for(i), 1 | 3 | 4 | 2);
@@ -1220,7 +1220,7 @@ fn run_c13(args: &Args, out: &mut Out) {
         }
     }
     // histories with reloads sprinkled in (model) + reload at EVERY index (oracle)
-    let n_model = args.scale(30, 300);
+    let n_model = args.scale(24, 300);
     for i in 0..n_model {
         let (pool, name) = key_pool(&mut rng, styles_for(i));
         let deep = matches!(styles_for(i), 1 | 2 | 3 | 4);
@@ -1254,7 +1254,7 @@ fn run_c13(args: &Args, out: &mut Out) {
 
 fn run_c14(args: &Args, out: &mut Out) {
     let mut rng = Rng::new(args.seed ^ 0xC14);
-    let n_model = args.scale(24, 240);
+    let n_model = args.scale(18, 240);
     for i in 0..n_model {
         let (pool, name) = key_pool(&mut rng, styles_for(i));
         let deep = matches!(styles_for(i), 1 | 2 | 3 | 4);
@@ -1269,7 +1269,7 @@ fn run_c14(args: &Args, out: &mut Out) {
             }
         }
         let probe = probe_keys(&mut rng, &pool, 4);
-        let n_probe = if deep { 4 } else { 8 };
+        let n_probe = if deep { 3 } else { 7 };
         let mut probe_model = probe.clone();
         rng.shuffle(&mut probe_model);
         probe_model.truncate(n_probe);
@@ -1290,7 +1290,7 @@ fn run_c14(args: &Args, out: &mut Out) {
                 let root = run.tree.root();
                 for (j, k) in probe_model.iter().enumerate() {
                     let res = &run.results[prefix_len + j];
-                    let budget = if deep { 3 } else { 6 };
+                    let budget = if deep { 2 } else { 5 };
                     mutations(out, args, &mut rng, &root, k, res, vals.get(k), &m, &pool, budget);
                 }
             }
@@ -1340,5 +1340,20 @@ fn main() {
             }
         }
     }
+    balance(&mut out, args.shards.max(1));
     out.write(&args, header, "smt_case", "bad_smt");
+}
+
+/// Out::write cuts the case list into contiguous shards; deal the cases (most expensive first,
+/// size of the Coq term as the cost proxy) round-robin so that the shards cost about the same.
+fn balance(out: &mut Out, k: usize) {
+    let mut cases: Vec<Case> = std::mem::take(&mut out.cases);
+    cases.sort_by_key(|c| std::cmp::Reverse(c.coq.len()));
+    let mut buckets: Vec<Vec<Case>> = (0..k).map(|_| vec![]).collect();
+    for (i, c) in cases.into_iter().enumerate() {
+        let r = i / k;
+        let j = if r % 2 == 0 { i % k } else { k - 1 - i % k };
+        buckets[j].push(c);
+    }
+    out.cases = buckets.into_iter().flatten().collect();
 }
